@@ -190,15 +190,15 @@ type Task struct {
 	handlerDone   bool
 	parkedOp      string
 	cancel        context.CancelFunc
-	Cancelled     bool // the client went away (request context cancelled) while the request was in flight
-	Dep0          string // World.depStamp when the request was sent
+	Cancelled     bool      // the client went away (request context cancelled) while the request was in flight
+	Dep0          string    // World.depStamp when the request was sent
 	TWrite        time.Time // simulated instant of the first WriteHeader / Write of the reply (zero: nothing written)
 	// the entity registered for the application of the stored request this callback read, when no storage mutation happened
 	// during the whole life of the request (what the Audience must be even if the library answered from a cache of its own)
 	StableAudience    string
 	HasStableAudience bool
-	resume        chan resumeCmd
-	done          chan struct{}
+	resume            chan resumeCmd
+	done              chan struct{}
 
 	Calls                    []CallRec
 	Panic                    string
